@@ -642,3 +642,64 @@ def loops_as_comprehensions(node: ast.FunctionDef) -> ast.FunctionDef:
     if t.count:
         ast.fix_missing_locations(new)
     return new
+
+
+class DesugarMatch(ast.NodeTransformer):
+    """`match subject:` with literal / or-of-literal / wildcard patterns (and optional guards) -> the if / elif / else chain that compares the
+    subject with == (what such a match means for str, int and None subjects). Anything else (captures, class and sequence patterns) is left
+    alone, so that the analyses that meet it say that they do not model it."""
+
+    counter = 0
+
+    def visit_Match(self, node: ast.Match) -> ast.AST:  # type: ignore[name-defined]
+        self.generic_visit(node)
+
+        def test_of(pat: ast.AST, subj: ast.expr) -> ast.expr | None | bool:
+            if isinstance(pat, ast.MatchValue):
+                return ast.Compare(left=subj, ops=[ast.Eq()], comparators=[pat.value])
+            if isinstance(pat, ast.MatchSingleton):
+                return ast.Compare(left=subj, ops=[ast.Is()], comparators=[ast.Constant(value=pat.value)])
+            if isinstance(pat, ast.MatchOr):
+                parts = [test_of(q, subj) for q in pat.patterns]
+                if any(q is None for q in parts):
+                    return None
+                if any(q is True for q in parts):
+                    return True
+                return ast.BoolOp(op=ast.Or(), values=parts)  # type: ignore[arg-type]
+            if isinstance(pat, ast.MatchAs) and pat.pattern is None and pat.name is None:
+                return True
+            return None
+
+        DesugarMatch.counter += 1
+        simple = isinstance(node.subject, (ast.Name, ast.Constant))
+        name = node.subject if simple else ast.Name(id=f"_match_subject_{DesugarMatch.counter}", ctx=ast.Load())
+        out: list[ast.stmt] = [] if simple else [ast.Assign(targets=[ast.Name(id=name.id, ctx=ast.Store())], value=node.subject)]  # type: ignore[union-attr]
+        chain: ast.If | None = None
+        last: ast.If | None = None
+        tail: list[ast.stmt] = []
+        for case in node.cases:
+            t = test_of(case.pattern, name)
+            if t is None:
+                return node
+            if t is True and case.guard is None:
+                tail = case.body
+                break
+            cond = case.guard if t is True else (t if case.guard is None else ast.BoolOp(op=ast.And(), values=[t, case.guard]))
+            new = ast.If(test=cond, body=case.body, orelse=[])
+            if chain is None:
+                chain = new
+            else:
+                last.orelse = [new]  # type: ignore[union-attr]
+            last = new
+        if chain is None:
+            out += tail
+        else:
+            last.orelse = tail  # type: ignore[union-attr]
+            out.append(chain)
+        for x in out:
+            ast.copy_location(x, node)
+            for y in ast.walk(x):
+                if not hasattr(y, "lineno"):
+                    ast.copy_location(y, node)
+        ast.fix_missing_locations(ast.Module(body=out, type_ignores=[]))
+        return out if len(out) != 1 else out[0]
